@@ -26,9 +26,11 @@ type gen struct {
 	// apiReexports: also call re-exported imported functions through the host API
 	apiReexports bool
 	noChains     bool
-	sweepHot     int    // how many of the recently written addresses a sweep reads back
-	tail         bool   // generated modules get the tail-call forms (and the runtime the tail-call feature)
-	instTag      string // tag of instantiation steps (scenario families with their own signatures)
+	sweepHot     int               // how many of the recently written addresses a sweep reads back
+	tail         bool              // generated modules get the tail-call forms (and the runtime the tail-call feature)
+	useResolver  bool              // the next instantiations carry an ImportResolver answering `resolver`
+	resolver     map[string]string // import module name -> instance name; other names are declined
+	instTag      string            // tag of instantiation steps (scenario families with their own signatures)
 	counts       map[string]int
 	lastW        map[int]string // object id -> instance through which it was last written
 }
@@ -116,11 +118,11 @@ func (g *gen) tagFor(in *mInst, fidx int) (string, *mFunc) {
 		// the imported function is itself a re-exported import of the module it was imported from
 		if tgt := in.funcs[f.sem.A]; tgt.host == "" && f.inst == in {
 			n := 0
-			for _, im := range in.spec.Imports {
+			for ii, im := range in.spec.Imports {
 				if im.Ext.Kind != wenc.ExtFunc {
 					continue
 				}
-				if n == f.sem.A && im.Mod != tgt.inst.name {
+				if n == f.sem.A && in.impFrom[ii] != tgt.inst.name {
 					pre = "via-reexport-chain:" + pre
 				}
 				n++
@@ -309,7 +311,14 @@ func (g *gen) instantiate(spec *ModSpec) instResult { return g.instantiateAs(spe
 // instantiateAs instantiates spec under the given instance name; a spec that was instantiated before is NOT
 // compiled again: the new instance is a sibling of the earlier ones (same CompiledModule).
 func (g *gen) instantiateAs(spec *ModSpec, name string) instResult {
+	if g.useResolver {
+		g.m.resolver = g.resolver
+		if g.m.resolver == nil {
+			g.m.resolver = map[string]string{}
+		}
+	}
 	res := g.m.instantiateAs(spec, name)
+	g.m.resolver = nil
 	mi := -1
 	for i, m := range g.sc.Mods {
 		if m == spec {
@@ -324,7 +333,13 @@ func (g *gen) instantiateAs(spec *ModSpec, name string) instResult {
 	if spec.Tail {
 		g.sc.Tail = true
 	}
-	st := Step{Kind: "inst", Inst: name, Mod: mi}
+	st := Step{Kind: "inst", Inst: name, Mod: mi, Resolver: g.useResolver}
+	if g.useResolver {
+		st.Resolve = map[string]string{}
+		for k, v := range g.resolver {
+			st.Resolve[k] = v
+		}
+	}
 	st.Tag = g.instTag
 	if res.OK && usesMutableImportInConstExpr(spec) {
 		// a runtime may also reject such a module (the specification does): see runEngine
@@ -417,11 +432,11 @@ func mutName(m bool) string {
 // itself imported from a third module (a re-export chain): it must be the original function.
 func (g *gen) chainProbes(in *mInst) {
 	n := 0
-	for _, im := range in.spec.Imports {
+	for ii, im := range in.spec.Imports {
 		if im.Ext.Kind != wenc.ExtFunc {
 			continue
 		}
-		if f := in.funcs[n]; f.host == "" && f.inst.name != im.Mod {
+		if f := in.funcs[n]; f.host == "" && f.inst.name != in.impFrom[ii] {
 			if name := fmt.Sprintf("ci%d", n); in.lay.ByName[name] > 0 {
 				g.count("reexport_chain_imports")
 				g.call(in, name, g.argsFor(f)...)
